@@ -34,7 +34,7 @@ def far_vector(rng, lo=3.0, hi=8.0):
     return [round(float(x) * 16) / 16 for x in v]
 
 
-def build_replacement(rng, pel, ppos, kind):
+def build_replacement(rng, pel, ppos, kind, nudge=(0.02, 0.09)):
     """replacement pattern in the SAME frame as the search pattern (pel, ppos).
     Returns (elems, pos, shared) with shared[k] = index of the search atom that replacement atom k coincides with
     (same element, same coordinates) or None for a new atom."""
@@ -82,6 +82,20 @@ def build_replacement(rng, pel, ppos, kind):
                 els.append(pel[j]); pos.append(list(ppos[j])); shared.append(j)
         if rng.random() < 0.5:
             new_atom(cen + np.array(far_vector(rng)))
+    elif kind == "subst+nudge":
+        # one real element substitution + one atom of UNCHANGED element re-positioned by `nudge` Å (a slightly relaxed
+        # bond): the re-positioned atom is NOT the same atom (find_unchanged_atom_pairs: closer than 1e-5)
+        k = rng.randrange(n)
+        j2 = rng.choice([j for j in range(n) if j != k])
+        for j in range(n):
+            if j == k:
+                new_atom(ppos[j])
+            elif j == j2:
+                v = np.array([rng.uniform(-1, 1) for _ in range(3)])
+                v = v / max(np.linalg.norm(v), 1e-9) * rng.uniform(*nudge)
+                els.append(pel[j]); pos.append([float(ppos[j][i] + float(v[i])) for i in range(3)]); shared.append(None)
+            else:
+                els.append(pel[j]); pos.append(list(ppos[j])); shared.append(j)
     elif kind == "subst":
         k = rng.randrange(n)
         for j in range(n):
@@ -128,7 +142,7 @@ def pattern_atoms_json(els, pos, charges=None):
 
 
 def make_case(rng, tier="quick", cell_kind=None, pname=None, boundary="default", replace_all=None, rp_kind=None,
-              atol=None, ncopies=None, distort=None, fmax=0.6, exact=None, hints="auto"):
+              atol=None, ncopies=None, distort=None, fmax=0.6, exact=None, hints="auto", nudge=(0.02, 0.09)):
     """distort: None = in ~45 % of the cases use a NON-default tolerance (0.1, 0.2 or 0.01) and distort the planted copies
     by up to fmax·atol (one atom by f·atol, or every atom by f·atol/2, f in [0.25, fmax]); for atol = 0.01 some copies
     are distorted BEYOND the tolerance (2–4·atol: not occurrences at that tolerance, but within the default 0.05)"""
@@ -188,7 +202,7 @@ def make_case(rng, tier="quick", cell_kind=None, pname=None, boundary="default",
         rp_kind = rng.choice(RP_KINDS)
         if pname.split("@")[0] in COLLINEAR and rng.random() < 0.4:
             rp_kind = "on_axis"
-    rel, rpos, shared = build_replacement(rng, pel, ppos, rp_kind)
+    rel, rpos, shared = build_replacement(rng, pel, ppos, rp_kind, nudge=nudge)
     tags = [100.0 + k + 0.5 for k in range(len(rel))]
     charges = [(i + 1) / 16.0 for i in range(n)]
     groups = [rng.randint(0, 3) for _ in range(n)]
